@@ -1326,10 +1326,37 @@ private:
           str += '\t';
           break;
         case 'u':
-          // Unicode escape - simplified implementation
-          _pos += 4;  // Skip the 4 hex digits for now
-          str += '?'; // Placeholder
+        {
+          // \uXXXX escape (RFC 8259 section 7): decode to UTF-8; a high surrogate
+          // followed by an escaped low surrogate forms one code point.
+          std::uint32_t cp = 0;
+          if (!_parseHex4(_pos + 1, cp))
+          {
+            _error = "Invalid unicode escape";
+            return false;
+          }
+          _pos += 4; // now at the last hex digit
+          if (cp >= 0xD800 && cp <= 0xDBFF)
+          {
+            std::uint32_t lo = 0;
+            if (_pos + 2 < _text.size() && _text[_pos + 1] == '\\' && _text[_pos + 2] == 'u' &&
+                _parseHex4(_pos + 3, lo) && lo >= 0xDC00 && lo <= 0xDFFF)
+            {
+              cp = 0x10000 + ((cp - 0xD800) << 10) + (lo - 0xDC00);
+              _pos += 6;
+            }
+            else
+            {
+              cp = 0xFFFD; // unpaired surrogate
+            }
+          }
+          else if (cp >= 0xDC00 && cp <= 0xDFFF)
+          {
+            cp = 0xFFFD; // unpaired surrogate
+          }
+          _appendUtf8(str, cp);
           break;
+        }
         default:
           _error = "Invalid escape sequence";
           return false;
@@ -1351,6 +1378,55 @@ private:
     ++_pos; // Skip closing quote
     out = Json(std::move(str));
     return true;
+  }
+
+  // Parse exactly four hex digits starting at \p at; false if truncated or non-hex.
+  bool _parseHex4(std::size_t at, std::uint32_t &out) const
+  {
+    if (at > _text.size() || _text.size() - at < 4)
+      return false;
+    out = 0;
+    for (std::size_t i = 0; i < 4; ++i)
+    {
+      char h = _text[at + i];
+      std::uint32_t d;
+      if (h >= '0' && h <= '9')
+        d = static_cast<std::uint32_t>(h - '0');
+      else if (h >= 'a' && h <= 'f')
+        d = static_cast<std::uint32_t>(h - 'a' + 10);
+      else if (h >= 'A' && h <= 'F')
+        d = static_cast<std::uint32_t>(h - 'A' + 10);
+      else
+        return false;
+      out = (out << 4) | d;
+    }
+    return true;
+  }
+
+  static void _appendUtf8(std::string &str, std::uint32_t cp)
+  {
+    if (cp < 0x80)
+    {
+      str += static_cast<char>(cp);
+    }
+    else if (cp < 0x800)
+    {
+      str += static_cast<char>(0xC0 | (cp >> 6));
+      str += static_cast<char>(0x80 | (cp & 0x3F));
+    }
+    else if (cp < 0x10000)
+    {
+      str += static_cast<char>(0xE0 | (cp >> 12));
+      str += static_cast<char>(0x80 | ((cp >> 6) & 0x3F));
+      str += static_cast<char>(0x80 | (cp & 0x3F));
+    }
+    else
+    {
+      str += static_cast<char>(0xF0 | (cp >> 18));
+      str += static_cast<char>(0x80 | ((cp >> 12) & 0x3F));
+      str += static_cast<char>(0x80 | ((cp >> 6) & 0x3F));
+      str += static_cast<char>(0x80 | (cp & 0x3F));
+    }
   }
 
   bool _parseArray(Json &out, std::size_t depth)
